@@ -46,6 +46,10 @@ def import_execnet():
     real = os.path.realpath(execnet.__file__)
     if not real.startswith(os.path.realpath(src) + os.sep):
         raise ToolFailure(f"execnet imported from {real}, expected under {src}")
+    # RemoteError.warn() only prints "[pid] Warning: unhandled RemoteError ..." to stderr (in THIS process; child
+    # gateways are untouched): keep the check's output readable
+    if os.environ.get("VERIF_KEEP_WARNINGS") != "1":
+        execnet.gateway_base.RemoteError.warn = lambda self: None
     return execnet
 
 
